@@ -483,6 +483,18 @@ Definition table_hyp (diffs : list Z) : Prop :=
   exists bits vals, build_optimal (count_freqs diffs) = Ok (bits, vals) /\
                     t81_table_ok bits vals = true /\ covers vals diffs.
 
+Lemma jll_encode_fwd : forall w h comps P pred pixels,
+  wf_image w h comps P pixels -> 0 <= pred <= 7 ->
+  jll_encode w h comps P pred pixels =
+  encode_stream w h comps P (effective_pred w h comps P pred pixels)
+    (ll_diffs w comps P (effective_pred w h comps P pred pixels) (pixels_to_rows w h comps P pixels)).
+Proof.
+  intros w h comps P pred pixels Hwf Hpred. unfold jll_encode.
+  rewrite (params_ok_wf _ _ _ _ _ Hwf). cbn [negb].
+  destruct (Z.ltb_spec pred 0); [lia|]. destruct (Z.ltb_spec 7 pred); [lia|]. cbn [orb].
+  reflexivity.
+Qed.
+
 Theorem jll_roundtrip : forall w h comps P pred pixels s,
   wf_image w h comps P pixels -> 0 <= pred <= 7 ->
   table_hyp (ll_diffs w comps P (effective_pred w h comps P pred pixels)
@@ -491,14 +503,229 @@ Theorem jll_roundtrip : forall w h comps P pred pixels s,
   jll_decode s = Ok (pixels, w, h, comps, P).
 Proof.
   intros w h comps P pred pixels s Hwf Hpred (bits & vals & Hopt & Hok & Hcov) Henc.
-  pose proof (rows_facts w h comps P pixels Hwf) as Hrf. cbv zeta in Hrf.
-  destruct Hrf as (Hlen & Hrows & Hback).
+  destruct (rows_facts w h comps P pixels Hwf) as (Hlen & Hrows & Hback).
   pose proof Hwf as (Hw & Hh & Hc & HP & _).
-  unfold jll_encode in Henc. rewrite (params_ok_wf _ _ _ _ _ Hwf) in Henc. cbn [negb] in Henc.
-  destruct (Z.ltb_spec pred 0); [lia|]. destruct (Z.ltb_spec 7 pred); [lia|]. cbn [orb] in Henc.
-  fold (effective_pred w h comps P pred pixels) in Henc.
+  rewrite (jll_encode_fwd _ _ _ _ _ _ Hwf Hpred) in Henc.
   assert (Hep : 1 <= effective_pred w h comps P pred pixels <= 7).
   { unfold effective_pred. destruct (Z.eqb_spec pred 0); [apply select_best_range | lia]. }
   rewrite <- Hback at 1.
   eapply ll_decode_stream; try eassumption. reflexivity.
+Time Qed.
+
+(* ---------- the Selection-Value-1 codec ---------- *)
+Lemma sv1_step_app0 : forall f data rest st, zlen data + 2 < 65536 ->
+  sv1_loop (S f) (segment M_APP0 data ++ rest) st = sv1_loop f rest st.
+Proof.
+  intros. rewrite segment_shape. change (byte_of (Z.shiftr M_APP0 8)) with 255.
+  change (byte_of M_APP0) with 224. rewrite sv1_loop_step by lia. reflexivity.
+Qed.
+Lemma sv1_step_sof3 : forall f data rest st, zlen data + 2 < 65536 ->
+  sv1_loop (S f) (segment M_SOF3 data ++ rest) st =
+  obind (sv1_parse_sof3 data st) (fun st' => sv1_loop f rest st').
+Proof.
+  intros. rewrite segment_shape. change (byte_of (Z.shiftr M_SOF3 8)) with 255.
+  change (byte_of M_SOF3) with 195. rewrite sv1_loop_step by lia. reflexivity.
+Qed.
+Lemma sv1_step_dht : forall f data rest st, zlen data + 2 < 65536 ->
+  sv1_loop (S f) (segment M_DHT data ++ rest) st =
+  obind (sv1_parse_dht (length data) data st) (fun st' => sv1_loop f rest st').
+Proof.
+  intros. rewrite segment_shape. change (byte_of (Z.shiftr M_DHT 8)) with 255.
+  change (byte_of M_DHT) with 196. rewrite sv1_loop_step by lia. reflexivity.
+Qed.
+Lemma sv1_step_sos : forall f data rest st, zlen data + 2 < 65536 ->
+  sv1_loop (S f) (segment M_SOS data ++ rest) st =
+  obind (sv1_parse_sos data st) (fun st' => sv1_decode_scan st' rest).
+Proof.
+  intros. rewrite segment_shape. change (byte_of (Z.shiftr M_SOS 8)) with 255.
+  change (byte_of M_SOS) with 218. rewrite sv1_loop_step by lia. reflexivity.
+Qed.
+
+Lemma sv1_decode_soi : forall rest,
+  sv1_decode (be16 M_SOI ++ rest) = sv1_loop (S (S (length rest))) rest s_init.
+Proof.
+  intros. unfold sv1_decode. change (be16 M_SOI ++ rest) with (255 :: 216 :: rest).
+  rewrite read_marker_ok by lia. reflexivity.
+Qed.
+
+Definition sv1_comp_list (comps : Z) : list (Z * Z) :=
+  if comps =? 1 then [(1, 0)] else [(1, 0); (2, 0); (3, 0)].
+
+Lemma sv1_parse_sof3_ok : forall w h comps P st,
+  1 <= w <= 65535 -> 1 <= h <= 65535 -> comps = 1 \/ comps = 3 -> 2 <= P <= 16 ->
+  sv1_parse_sof3 (sof3_data w h comps P) st = Ok (mkS w h P (sv1_comp_list comps) (s_tabs st)).
+Proof.
+  intros w h comps P st Hw Hh Hc HP. unfold sv1_parse_sof3.
+  rewrite sof3_len by assumption.
+  unfold sof3_data. set (tl := flat_map _ _). cbn [app].
+  destruct (znth6 (byte_of P) (byte_of (Z.shiftr h 8)) (byte_of h) (byte_of (Z.shiftr w 8))
+                  (byte_of w) (byte_of comps) tl 0) as (E0 & E1 & E2 & E3 & E4 & E5).
+  rewrite E0, E1, E2, E3, E4, E5.
+  destruct (Z.ltb_spec (6 + 3 * comps) 6) as [Hl|_]; [lia|].
+  rewrite (byte_of_small P) by lia. rewrite (byte_of_small comps) by lia.
+  destruct (be16_val h ltac:(lia)) as (Eh & _ & _). destruct (be16_val w ltac:(lia)) as (Ew & _ & _).
+  rewrite Eh, Ew.
+  destruct (Z.ltb_spec P 2); [lia|]. destruct (Z.ltb_spec 16 P); [lia|]. cbn [orb].
+  destruct (Z.leb_spec w 0); [lia|]. destruct (Z.leb_spec h 0); [lia|]. cbn [orb].
+  destruct (Z.ltb_spec (6 + 3 * comps) (6 + comps * 3)); [lia|].
+  unfold tl. destruct Hc; subst comps; reflexivity.
+Qed.
+
+Lemma sv1_parse_dht_ok : forall bits vals t st, table_facts bits vals -> build_table bits vals = Ok t ->
+  sv1_parse_dht (length (0 :: bits ++ vals)) (0 :: bits ++ vals) st =
+  Ok (mkS (s_w st) (s_h st) (s_P st) (s_comps st) (zupd (s_tabs st) 0 (Some t))).
+Proof.
+  intros bits vals t st F Ht. destruct F as [Fl Fb Fs Fv Fn Ff]. cbn [length sv1_parse_dht].
+  change (Z.shiftr 0 4) with 0. change (Z.land 0 15) with 0.
+  change (3 <? 0) with false. cbv iota.
+  destruct (Nat.ltb_spec (length (bits ++ vals)) 16) as [Hlt|_]; [rewrite app_length in Hlt; lia|].
+  rewrite <- Fl. rewrite firstn_len_app, skipn_len_app.
+  rewrite Fs. destruct (Z.ltb_spec (zlen vals) (zlen vals)); [lia|].
+  unfold zlen. rewrite Nat2Z.id, firstn_all, skipn_all.
+  rewrite Ht. cbn [obind]. change (0 =? 0) with true. cbv iota.
+  destruct (length (bits ++ vals)); reflexivity.
+Qed.
+
+Lemma sv1_parse_sos_ok : forall w h comps P tabs,
+  comps = 1 \/ comps = 3 ->
+  sv1_parse_sos (sos_data comps 1) (mkS w h P (sv1_comp_list comps) tabs) =
+  Ok (mkS w h P (sv1_comp_list comps) tabs).
+Proof.
+  intros w h comps P tabs Hc. destruct Hc; subst comps; reflexivity.
+Qed.
+
+Lemma sv1_pred_good : forall P r c l a al, 2 <= P -> good P l -> good P a -> good P al ->
+  good P (sv1_pred (2 ^ (P - 1)) r c l a al).
+Proof.
+  intros P r c l a al HP Hl Ha Hal. unfold sv1_pred.
+  assert (good P (2 ^ (P - 1))).
+  { unfold good. split; [apply Z.pow_nonneg; lia | apply Z.pow_lt_mono_r; lia]. }
+  destruct c, r; assumption.
+Qed.
+
+Lemma sv1_decode_stream : forall w h comps P rows bits vals s,
+  1 <= w <= 65535 -> 1 <= h <= 65535 -> comps = 1 \/ comps = 3 -> 2 <= P <= 16 ->
+  length rows = Z.to_nat h ->
+  Forall (fun r => length r = Z.to_nat w /\ Forall (goodpx P (Z.to_nat comps)) r) rows ->
+  forall diffs, diffs = sv1_diffs w comps P rows ->
+  build_optimal (count_freqs diffs) = Ok (bits, vals) ->
+  t81_table_ok bits vals = true -> covers vals diffs ->
+  encode_stream w h comps P 1 diffs = Ok s ->
+  sv1_decode s = Ok (rows_to_pixels P rows, w, h, comps, P).
+Proof.
+  intros w h comps P rows bits vals s Hw Hh Hc HP Hlen Hrows diffs Ediffs Hopt Hok Hcov Henc.
+  rewrite sv1_diffs_rows_map in Ediffs.
+  pose proof (table_ok_facts _ _ Hok) as F.
+  pose proof (encode_stream_fwd w h comps P 1 diffs bits vals Hopt) as Hf. rewrite Henc in Hf.
+  destruct (lookup_ok bits 0 0 (zlen vals)) eqn:Elk; [|discriminate Hf]. apply Ok_inj in Hf. subst s.
+  unfold stream_of.
+  assert (Hbt : build_table bits vals = Ok (ht_of bits vals)) by (unfold build_table; rewrite Elk; reflexivity).
+  assert (Hdok : diffs_ok vals diffs).
+  { unfold diffs_ok. apply Forall_forall. intros d Hd. split.
+    - revert d Hd. apply Forall_forall. rewrite Ediffs. apply rows_map_Forall.
+      intros. apply narrow16_range.
+    - apply (proj1 (Forall_forall _ _) Hcov). assumption. }
+  rewrite (enc_syms_emit bits vals diffs w_init [] F Hdok winv_init).
+  destruct (emit_stuff (map (word bits vals) diffs) []) as (bs & pad & E1 & E2 & E3); [simpl; lia|].
+  rewrite E1. cbn [app] in E3.
+  rewrite sv1_decode_soi.
+  match goal with |- context [sv1_loop _ ?r s_init] => set (rest := r) end.
+  assert (Hfuel : exists f, length rest = S (S f)).
+  { unfold rest. rewrite app_length. pose proof (segment_length M_APP0 jfif_payload).
+    destruct (length (segment M_APP0 jfif_payload)) as [|[|n]]; try lia. eexists. reflexivity. }
+  destruct Hfuel as [f Hf]. rewrite Hf. unfold rest.
+  rewrite sv1_step_app0 by (vm_compute; reflexivity).
+  rewrite sv1_step_sof3 by (rewrite sof3_len by assumption; lia).
+  rewrite sv1_parse_sof3_ok by assumption. cbn [obind s_init s_tabs].
+  rewrite dht_data_ok by assumption.
+  rewrite sv1_step_dht by (pose proof (dht_len bits vals F); lia).
+  rewrite (sv1_parse_dht_ok bits vals (ht_of bits vals)) by assumption.
+  cbn [obind s_w s_h s_P s_comps s_tabs].
+  change (zupd [None; None; None; None] 0 (Some (ht_of bits vals)))
+    with [Some (ht_of bits vals); None; None; None].
+  rewrite sv1_step_sos by (rewrite sos_len by assumption; lia).
+  rewrite sv1_parse_sos_ok by assumption. cbn [obind].
+  unfold sv1_decode_scan. cbn [s_w s_h s_P s_comps s_tabs].
+  change (be16 M_EOI) with [255; 217]. rewrite sv1_extract_stuff by assumption.
+  unfold dec_image.
+  assert (Htabs : map (fun c : Z * Z => sv1_tab [Some (ht_of bits vals); None; None; None] (snd c))
+                      (sv1_comp_list comps) = tabs bits vals (Z.to_nat comps)).
+  { unfold tabs. destruct Hc; subst comps; reflexivity. }
+  rewrite Htabs.
+  assert (Hlt : length (tabs bits vals (Z.to_nat comps)) = Z.to_nat comps) by apply repeat_length.
+  rewrite Hlt.
+  pose proof (repeat_goodpx P (Z.to_nat comps) ltac:(lia)) as Gd.
+  destruct (dec_rows_ok bits vals Hok P (sv1_pred (2 ^ (P - 1))) (recon (2 ^ P))
+              (fun r c l a al x Hl Ha Hal Hx =>
+                 diff_reconstruct_single_wrap P x _ HP Hx (sv1_pred_good P r c l a al ltac:(lia) Hl Ha Hal))
+              rows (repeat (repeat 0 (Z.to_nat comps)) (Z.to_nat w)) (repeat 0 (Z.to_nat comps))
+              (Z.to_nat comps) (Z.to_nat w) (r_init (stuff bs)) pad true)
+    as (st' & Edec & _).
+  - exact Hrows.
+  - apply repeat_length.
+  - apply Forall_forall. intros x Hx. apply repeat_spec in Hx. subst x. exact Gd.
+  - exact Gd.
+  - rewrite <- Ediffs. exact Hdok.
+  - rewrite <- Ediffs. unfold wd. rewrite <- E3. rewrite <- (app_nil_r (stuff bs)). apply rep_init. exact E2.
+  - rewrite <- Hlen. rewrite Edec. cbn [obind fst]. unfold sv1_pixels. cbn [s_w s_h s_P s_comps].
+    destruct Hc; subst comps; reflexivity.
+Time Qed.
+
+Lemma sv1_encode_fwd : forall w h comps P pixels, wf_image w h comps P pixels ->
+  sv1_encode w h comps P pixels =
+  encode_stream w h comps P 1 (sv1_diffs w comps P (pixels_to_rows w h comps P pixels)).
+Proof.
+  intros w h comps P pixels Hwf. unfold sv1_encode.
+  rewrite (params_ok_wf _ _ _ _ _ Hwf). reflexivity.
+Qed.
+
+Theorem sv1_roundtrip : forall w h comps P pixels s,
+  wf_image w h comps P pixels ->
+  table_hyp (sv1_diffs w comps P (pixels_to_rows w h comps P pixels)) ->
+  sv1_encode w h comps P pixels = Ok s ->
+  sv1_decode s = Ok (pixels, w, h, comps, P).
+Proof.
+  intros w h comps P pixels s Hwf (bits & vals & Hopt & Hok & Hcov) Henc.
+  destruct (rows_facts w h comps P pixels Hwf) as (Hlen & Hrows & Hback).
+  pose proof Hwf as (Hw & Hh & Hc & HP & _).
+  rewrite (sv1_encode_fwd _ _ _ _ _ Hwf) in Henc.
+  rewrite <- Hback at 1.
+  eapply sv1_decode_stream; try eassumption. reflexivity.
+Time Qed.
+
+(* ---------- boolean versions of the hypotheses (for concrete instances) ---------- *)
+Definition wf_imageb (w h comps P : Z) (pixels : list Z) : bool :=
+  (1 <=? w) && (w <=? 65535) && (1 <=? h) && (h <=? 65535) && ((comps =? 1) || (comps =? 3))
+  && (2 <=? P) && (P <=? 16) && (zlen pixels =? w * h * comps * ((P + 7) / 8))
+  && forallb (fun b => (0 <=? b) && (b <? 256)) pixels
+  && forallb (fun v => (0 <=? v) && (v <? 2 ^ P)) (samples_of P pixels).
+Lemma wf_imageb_ok : forall w h comps P pixels, wf_imageb w h comps P pixels = true ->
+  wf_image w h comps P pixels.
+Proof.
+  intros w h comps P pixels H. unfold wf_imageb in H. rewrite !andb_true_iff in H.
+  destruct H as [[[[[[[[[H1 H2] H3] H4] H5] H6] H7] H8] H9] H10].
+  unfold wf_image. split; [lia|]. split; [lia|]. split; [|split; [lia|]; split; [lia|]; split].
+  - apply orb_true_iff in H5. destruct H5 as [H5|H5]; apply Z.eqb_eq in H5; [left | right]; assumption.
+  - apply Forall_forall. intros b Hb. apply (proj1 (forallb_forall _ _) H9) in Hb. lia.
+  - apply Forall_forall. intros b Hb. apply (proj1 (forallb_forall _ _) H10) in Hb. lia.
+Qed.
+Definition coversb (vals diffs : list Z) : bool :=
+  forallb (fun d => existsb (Z.eqb (diff_category d)) vals) diffs.
+Lemma coversb_ok : forall vals diffs, coversb vals diffs = true -> covers vals diffs.
+Proof.
+  intros vals diffs H. apply Forall_forall. intros d Hd.
+  apply (proj1 (forallb_forall _ _) H) in Hd. apply existsb_exists in Hd.
+  destruct Hd as (v & Hv & E). apply Z.eqb_eq in E. subst. assumption.
+Qed.
+Definition table_hypb (diffs : list Z) : bool :=
+  match build_optimal (count_freqs diffs) with
+  | Ok (bits, vals) => t81_table_ok bits vals && coversb vals diffs
+  | _ => false
+  end.
+Lemma table_hypb_ok : forall diffs, table_hypb diffs = true -> table_hyp diffs.
+Proof.
+  intros diffs H. unfold table_hypb in H.
+  destruct (build_optimal (count_freqs diffs)) as [[bits vals]| | |] eqn:E; try discriminate.
+  apply andb_true_iff in H. destruct H as [H1 H2].
+  exists bits, vals. split; [exact E|]. split; [assumption | apply coversb_ok; assumption].
 Qed.
